@@ -39,7 +39,7 @@ def correspondence(ctx, flat=True, count=10):
     lines, metas = [], []
     npairs = 0
     for i in range(count * ctx.scale):
-        a, b = cc.rand_shape(rng), cc.rand_shape(rng)
+        a, b = cc.rand_pair(rng, i)
         op = rng.choice(list(cc.OPS))
         try:
             res, log = cc.record_clip(cc.build(a), cc.build(b), op, flat)
@@ -94,8 +94,15 @@ def check_pair(a, b, seed):
     ys = [p[1] for p in fa + fb]
     polys = {op: [cc.path_vertices(p) for p in res[op]] for op in res}
     tested = 0
-    for _ in range(40):
-        q = (rng.uniform(min(xs) - 10, max(xs) + 10), rng.uniform(min(ys) - 10, max(ys) + 10))
+    bxs, bys = [p[0] for p in fb], [p[1] for p in fb]
+    axs, ays = [p[0] for p in fa], [p[1] for p in fa]
+    for k in range(60):
+        if k < 40:
+            q = (rng.uniform(min(xs) - 10, max(xs) + 10), rng.uniform(min(ys) - 10, max(ys) + 10))
+        elif k < 50:
+            q = (rng.uniform(min(bxs), max(bxs)), rng.uniform(min(bys), max(bys)))      # inside the argument's box (holes, nested shapes)
+        else:
+            q = (rng.uniform(min(axs), max(axs)), rng.uniform(min(ays), max(ays)))
         if cc.dist_poly(fa, q) <= 2.01 or cc.dist_poly(fb, q) <= 2.01:
             continue
         tested += 1
@@ -130,8 +137,11 @@ def search(ctx, budget):
     nontriv = 0
     for i in range(n):
         big = ctx.tier == "thorough" and rng.random() < 0.2
-        a = cc.rand_shape(rng, span=100 if not big else 1000, sizes=(20, 240) if not big else (200, 2000))
-        b = cc.rand_shape(rng, span=100 if not big else 1000, sizes=(20, 240) if not big else (200, 2000))
+        if big:
+            a = cc.rand_shape(rng, span=1000, sizes=(200, 2000))
+            b = cc.rand_shape(rng, span=1000, sizes=(200, 2000))
+        else:
+            a, b = cc.rand_pair(rng, i)
         inp = {"a": a, "b": b, "seed": rng.randint(0, 10 ** 6)}
         if repr((a, b)) not in seen:
             seen.add(repr((a, b)))
